@@ -140,15 +140,18 @@ class SafetyMonitor(Monitor):
         for o in obs:
             if o[0] == 'apply' or o[0] == 'apply-raise':
                 pos, sid = o[1], o[2]
+                raw = sid
+                if o[0] == 'apply-raise':
+                    sid = ('x', sid)      # executed at this position, raised (leaves no trace in the object)
                 old = tget(applied_at, pos)
                 if old is None:
                     if 'C02' in C or 'C01' in C:
                         if sid in applied_at:
                             raise core.Violation('C02 submission %r applied at position %d and again at position %d (on %s, %r)' % (
-                                sid, applied_at.index(sid), pos, nid, ev), sig='applied-twice')
-                        if sid in neg and 'C02' in C:
+                                raw, applied_at.index(sid), pos, nid, ev), sig='applied-twice')
+                        if raw in neg and 'C02' in C:
                             raise core.Violation('C02 submission %r was reported as failed (never applied) but %s applies it at '
-                                                 'position %d (%r)' % (sid, nid, pos, ev), sig='applied-after-negative')
+                                                 'position %d (%r)' % (raw, nid, pos, ev), sig='applied-after-negative')
                     applied_at = tset(applied_at, pos, sid)
                 elif old != sid and 'C01' in C:
                     raise core.Violation('C01 position %d: a node applied submission %r, %s applies submission %r (%r)' % (
@@ -159,17 +162,21 @@ class SafetyMonitor(Monitor):
                     if any(c[0] == sid for c in cbs):
                         raise core.Violation('C02 callback of submission %r fired twice (%r then %r) at %r' % (
                             sid, [c for c in cbs if c[0] == sid], (res, err), ev), sig='callback-twice')
-                    if err == 0:
+                    if err == 0 and ('x', sid) in applied_at:
+                        if not isinstance(res, Exception):
+                            raise core.Violation('C02 SUCCESS result %r for submission %r whose method raised (%r)' % (res, sid, ev),
+                                                 sig='success-wrong-result')
+                    elif err == 0:
                         if sid not in applied_at:
                             raise core.Violation('C02 SUCCESS for submission %r which no node has applied (%r)' % (sid, ev),
                                                  sig='success-not-applied')
                         pos = applied_at.index(sid)
-                        want = sum(1 for q in applied_at[:pos + 1] if q is not None)
+                        want = sum(1 for q in applied_at[:pos + 1] if q is not None and not isinstance(q, tuple))
                         if isinstance(sid, int) and res != want:
                             raise core.Violation('C02 SUCCESS result %r for submission %r, executing it at its position %d returns %r (%r)' % (
                                 res, sid, pos, want, ev), sig='success-wrong-result')
                     elif err in _neg():
-                        if sid in applied_at:
+                        if sid in applied_at or ('x', sid) in applied_at:
                             raise core.Violation('C02 callback %s for submission %r which was applied at position %d (%r)' % (
                                 _neg()[err], sid, applied_at.index(sid), ev), sig='negative-but-applied')
                 if err in _neg():
@@ -253,7 +260,7 @@ class SafetyMonitor(Monitor):
                     s.nid, sid, pos, tget(applied_at, pos), ev), sig='list-differs')
         have = set(p for p, _ in app)
         for p in range(2, min(len(applied_at), s.applied + 1)):
-            if applied_at[p] is not None and p not in have:
+            if applied_at[p] is not None and not isinstance(applied_at[p], tuple) and p not in have:
                 raise core.Violation('C01 %s has applied index %d but its object state lacks position %d (submission %r): %r (%r)' % (
                     s.nid, s.applied, p, applied_at[p], app, ev), sig='list-skips')
 
